@@ -404,4 +404,339 @@ theorem new_total {fb : FB} {r1 r2 : Array Nat} {offset : Int} {nblocks nS : Nat
     have := idxskip_le hfb hnS (pskip fb.primes.size) (by unfold pskip; split_ifs <;> omega)
     omega
 
+/-! ### sieve_block -/
+
+section CursorTotal
+variable {fb : FB} {r1 r2 : Array Nat} {idxskip nS : Nat}
+
+theorem writeOpt_some {a : Array Nat} {j : Nat} (hj : j < a.size) (w : Option Nat) :
+    ∃ a', writeOpt a j w = some a' ∧ a'.size = a.size := by
+  cases w with
+  | none => exact ⟨a, rfl, rfl⟩
+  | some v => exact ⟨a.setIfInBounds j v, by simp [writeOpt, hj], by simp⟩
+
+theorem skipStep_some (hfb : fb.WF) (hnS : fb.ibl[16]? = some nS) {B : Nat} {lo0 a : Array Nat}
+    (hcur : CurInv fb r1 r2 idxskip nS B lo0) (ha : a.size = 2 * nS) {i : Nat} (hi : i < 2 * nS) :
+    ∃ a', skipStep fb lo0 a i = some a' ∧ a'.size = 2 * nS := by
+  have hn := hfb.ibl_le _ _ hnS
+  obtain ⟨p, hp⟩ := hfb.prime_at (i := i / 2) (by omega)
+  have hisz : i < lo0.size := by rw [hcur.1]; exact hi
+  obtain ⟨c, hc⟩ : ∃ c, lo0[i]? = some c := ⟨lo0[i], Array.getElem?_eq_getElem hisz⟩
+  have hp2 := hfb.ge2 _ _ hp
+  have hb : BLOCK % p < p := Nat.mod_lt _ (by omega)
+  have hs : ¬ c + p < BLOCK % p := by omega
+  have hia : i < a.size := by omega
+  refine ⟨a.setIfInBounds i ((if c + p - BLOCK % p ≥ p then c + p - BLOCK % p - p else c + p - BLOCK % p) % 65536),
+    ?_, by simp [ha]⟩
+  unfold skipStep stepSkipped
+  simp only [hp, hc, hs, if_false, Option.bind_eq_bind, Option.bind_some, hia, if_true]
+
+theorem singleStep_some (hfb : fb.WF) (hnS : fb.ibl[16]? = some nS) {B : Nat} {lo0 a : Array Nat}
+    (hcur : CurInv fb r1 r2 idxskip nS B lo0) (ha : a.size = 2 * nS) {i : Nat} (hi : i < 2 * nS)
+    (hge : idxskip ≤ i) : ∃ a', singleStep fb lo0 a i = some a' ∧ a'.size = 2 * nS := by
+  obtain ⟨p, o1, o2, hp, h1, h2, hif⟩ := hcur.2 i hi
+  have hps := prime_small hfb hnS hi hp
+  have hp2 := hfb.ge2 _ _ hp
+  have hw : ∃ c w, lo0[i]? = some c ∧ stepSingle p c = some w := by
+    by_cases hl : i % 2 = 0 ∨ o1 ≠ o2
+    · rw [if_pos hl] at hif
+      obtain ⟨c, hc, hlt, _⟩ := hif
+      obtain ⟨c', e', _⟩ := stepSingle_next (p := p) (by omega) (by simp only [BLOCK]; omega) hlt
+      exact ⟨c, _, hc, e'⟩
+    · rw [if_neg hl] at hif
+      exact ⟨NONE, none, hif hge, by simp [stepSingle]⟩
+  obtain ⟨c, w, hc, hw⟩ := hw
+  obtain ⟨a', ha', hs'⟩ := writeOpt_some (a := a) (j := i) (by omega) w
+  exact ⟨a', by simp [singleStep, hp, hc, hw, ha'], hs'.trans ha⟩
+
+theorem pairStep_some (hfb : fb.WF) (hnS : fb.ibl[16]? = some nS) {B : Nat} {lo0 a : Array Nat}
+    (hcur : CurInv fb r1 r2 idxskip nS B lo0) (ha : a.size = 2 * nS) {i : Nat} (hi : 2 * i < 2 * nS)
+    (hge : idxskip ≤ 2 * i) (hp4 : ∀ p, fb.primes[i]? = some p → p ≤ 4096) :
+    ∃ a', pairStep fb lo0 a i = some a' ∧ a'.size = 2 * nS := by
+  have e0 : (2 * i) / 2 = i := by omega
+  have e1 : (2 * i + 1) / 2 = i := by omega
+  have m0 : (2 * i) % 2 = 0 := by omega
+  have m1 : ¬ (2 * i + 1) % 2 = 0 := by omega
+  obtain ⟨p, o1, o2, hp, h1, h2, hif0⟩ := hcur.2 (2 * i) hi
+  obtain ⟨p', o1', o2', hp', h1', h2', hif1⟩ := hcur.2 (2 * i + 1) (by omega)
+  rw [e0] at hp h1 h2
+  rw [e1] at hp' h1' h2'
+  rw [hp] at hp'; rw [h1] at h1'; rw [h2] at h2'
+  have := Option.some.inj hp'; subst this
+  have := Option.some.inj h1'; subst this
+  have := Option.some.inj h2'; subst this
+  rw [if_pos (Or.inl m0)] at hif0
+  obtain ⟨c1, hc1, hlt1, _⟩ := hif0
+  have hp2 := hfb.ge2 _ _ hp
+  have hpl := hp4 _ hp
+  have hw : ∃ c2 w1 w2, lo0[2 * i + 1]? = some c2 ∧ stepPair p c1 c2 = some (w1, w2) := by
+    by_cases hl : o1 ≠ o2
+    · rw [if_pos (Or.inr hl)] at hif1
+      obtain ⟨c2, hc2, hlt2, _⟩ := hif1
+      obtain ⟨v1, v2, e, _, _⟩ := stepPair_two (p := p) (by omega) hpl hlt1 hlt2
+      exact ⟨c2, _, _, hc2, e⟩
+    · rw [if_neg (by rintro (hx | hx); exact m1 hx; exact hl hx)] at hif1
+      obtain ⟨v1, e, _⟩ := stepPair_one (p := p) (by omega) hpl hlt1
+      exact ⟨NONE, _, _, hif1 (by omega), e⟩
+  obtain ⟨c2, w1, w2, hc2, hw⟩ := hw
+  obtain ⟨a1, ha1, hs1⟩ := writeOpt_some (a := a) (j := 2 * i) (by omega) w1
+  obtain ⟨a2, ha2, hs2⟩ := writeOpt_some (a := a1) (j := 2 * i + 1) (by omega) w2
+  exact ⟨a2, by simp [pairStep, hp, hc1, hc2, hw, ha1, ha2], by omega⟩
+
+theorem sieveCursors_some (hfb : fb.WF) (hnS : fb.ibl[16]? = some nS) (hev : idxskip % 2 = 0)
+    (hsk : idxskip ≤ 2 * nS) {B : Nat} {lo0 lp0 : Array Nat} (hcur : CurInv fb r1 r2 idxskip nS B lo0)
+    (hnone : NoneInv r1 r2 idxskip nS lp0) : ∃ r, sieveCursors fb idxskip lo0 lp0 = some r := by
+  -- skipped primes
+  obtain ⟨la, hla, sa⟩ := foldlM_some (skipStep fb lo0) (fun a => a.size = 2 * nS) (List.range' 0 idxskip)
+    (fun i hi a ha => skipStep_some hfb hnS hcur ha (by have := List.mem_range'_1.1 hi; omega)) lp0 hnone.1
+  -- classes 2..12
+  obtain ⟨lb, hlb, sb⟩ := foldlM_some (pairLog fb idxskip lo0) (fun a => a.size = 2 * nS) (List.range' 2 11)
+    (fun log hl a ha => by
+      have hlog := List.mem_range'_1.1 hl
+      obtain ⟨va, hva⟩ := hfb.ibl_some log (by omega)
+      obtain ⟨vb, hvb⟩ := hfb.ibl_some (log + 1) (by omega)
+      have hvbn : vb ≤ nS := hfb.ibl_mono (by omega) hvb hnS
+      obtain ⟨a', ha', hs'⟩ := foldlM_some (pairStep fb lo0) (fun a => a.size = 2 * nS)
+        (List.range' (max idxskip (2 * va) / 2) (2 * vb / 2 - max idxskip (2 * va) / 2))
+        (fun i hi a ha => by
+          have hm := List.mem_range'_1.1 hi
+          refine pairStep_some hfb hnS hcur ha (by omega) (by omega) ?_
+          intro p hp
+          have := (hfb.ibl_spec (log + 1) i vb p hvb hp).1 (by omega)
+          have h13 : bitlen p < 12 + 1 := by omega
+          have := (bitlen_lt_succ_iff p 12).1 h13
+          omega) a ha
+      refine ⟨a', ?_, hs'⟩
+      have hl15 : log < 15 := by omega
+      simp only [pairLog, hva, hvb, hl15, if_true, Option.bind_eq_bind, Option.bind_some, Option.map_some]
+      exact ha') la sa
+  -- classes 13..15
+  obtain ⟨lc, hlc, _⟩ := foldlM_some (singleLog fb idxskip lo0) (fun a => a.size = 2 * nS) (List.range' 13 3)
+    (fun log hl a ha => by
+      have hlog := List.mem_range'_1.1 hl
+      obtain ⟨va, hva⟩ := hfb.ibl_some log (by omega)
+      obtain ⟨vb, hvb⟩ := hfb.ibl_some (log + 1) (by omega)
+      have hvbn : vb ≤ nS := hfb.ibl_mono (by omega) hvb hnS
+      by_cases hl15 : log < 15
+      · obtain ⟨a', ha', hs'⟩ := foldlM_some (singleStep fb lo0) (fun a => a.size = 2 * nS)
+          (List.range' (max idxskip (2 * va)) (2 * vb - max idxskip (2 * va)))
+          (fun i hi a ha => by
+            have hm := List.mem_range'_1.1 hi
+            exact singleStep_some hfb hnS hcur ha (by omega) (by omega)) a ha
+        refine ⟨a', ?_, hs'⟩
+        simp only [singleLog, hva, hvb, hl15, if_true, Option.bind_eq_bind, Option.bind_some, Option.map_some]
+        exact ha'
+      · obtain ⟨a', ha', hs'⟩ := foldlM_some (singleStep fb lo0) (fun a => a.size = 2 * nS)
+          (List.range' (max idxskip (2 * va)) (a.size - max idxskip (2 * va)))
+          (fun i hi a' ha' => by
+            have hm := List.mem_range'_1.1 hi
+            exact singleStep_some hfb hnS hcur ha' (by omega) (by omega)) a ha
+        refine ⟨a', ?_, hs'⟩
+        simp only [singleLog, hva, hl15, if_false, Option.bind_eq_bind, Option.bind_some]
+        exact ha') lb sb
+  exact ⟨(lc, lo0), by simp [sieveCursors, hla, hlb, hlc]⟩
+
+end CursorTotal
+
+/-! ### lookups -/
+
+theorem mapM_range'_some {α} (g : Nat → Option α) :
+    ∀ (n s : Nat), (∀ j, j < n → ∃ v, g (s + j) = some v) → ∃ l, (List.range' s n).mapM g = some l := by
+  intro n
+  induction n with
+  | zero => intro s _; exact ⟨[], by simp⟩
+  | succ n ih =>
+    intro s h
+    obtain ⟨v, hv⟩ := h 0 (by omega)
+    obtain ⟨l, hl⟩ := ih (s + 1) (fun j hj => by
+      obtain ⟨w, hw⟩ := h (j + 1) (by omega)
+      exact ⟨w, by rw [← hw]; congr 1; omega⟩)
+    refine ⟨v :: l, ?_⟩
+    rw [List.range'_succ, List.mapM_cons]
+    simp only [Nat.add_zero] at hv
+    simp [hv, hl]
+
+theorem Table.bucket_some {n : Nat} {t : Table} (h : t.Sized n) {b : Nat} (hb : b < 128 * n) :
+    ∃ bk, t.bucket b = some bk := by
+  obtain ⟨he, hbl, hle, _⟩ := h
+  have hbi : b < t.blens.size := by omega
+  have hbl' : t.blens[b]? = some t.blens[b] := Array.getElem?_eq_getElem hbi
+  have h32 := hle _ _ hbl'
+  unfold Table.bucket
+  simp only [hbl', BUCKET_SIZE]
+  exact mapM_range'_some _ _ _ (fun j hj => ⟨t.entries[b * 32 + j]'(by omega), Array.getElem?_eq_getElem (by omega)⟩)
+
+theorem Table.lookup_some {n : Nat} {t : Table} (h : t.Sized n) {blkNo r : Nat} (hb : blkNo < n) (hr : r < BLOCK) :
+    ∃ l, t.lookup (blkNo * BLOCK) r = some l := by
+  obtain ⟨bk, hbk⟩ := Table.bucket_some h (b := (blkNo * BLOCK + r) / 256) (by simp only [BLOCK] at *; omega)
+  simp only [Table.lookup, BUCKET_WIDTH, hbk, Option.bind_eq_bind, Option.bind_some]
+  exact ⟨_, rfl⟩
+
+theorem LTable.bucket_some {n : Nat} {t : LTable} (h : t.Sized n) {b : Nat} (hb : b < 2 * n + 1) :
+    ∃ bk, t.bucket b = some bk := by
+  obtain ⟨hl, hh, hwf⟩ := h
+  have e : n * BLOCK / LBW = 2 * n := by simp only [BLOCK, LBW]; omega
+  rw [e] at hl hh
+  have hbi : b < t.lengths.size := by omega
+  have hbl' : t.lengths[b]? = some t.lengths[b] := Array.getElem?_eq_getElem hbi
+  have hle := hwf _ _ hbl'
+  unfold LTable.bucket
+  simp only [hbl', LBS]
+  have hsz : b * 1024 + 1024 ≤ t.hits.size := by rw [hh]; simp only [LBW]; omega
+  exact mapM_range'_some _ _ _ (fun j hj => ⟨t.hits[b * 1024 + j]'(by omega), Array.getElem?_eq_getElem (by omega)⟩)
+
+theorem LTable.lookup_some {n : Nat} {t : LTable} (h : t.Sized n) {blkNo r : Nat} (hb : blkNo < n) (hr : r < BLOCK) :
+    ∃ l, t.lookup blkNo r = some l := by
+  obtain ⟨bk, hbk⟩ := LTable.bucket_some h (b := 2 * blkNo + r / LBW) (by simp only [BLOCK, LBW] at *; omega)
+  simp only [LTable.lookup, hbk, Option.bind_eq_bind, Option.bind_some]
+  exact ⟨_, rfl⟩
+
+/-! ### sieve_block / next_block / smooths -/
+
+theorem sieveBlock_some {fb : FB} {nS n : Nat} {rS1 rS2 rL1 rL2 : Array Nat} {B : Nat} {s : State}
+    (hfb : fb.WF) (hnS : fb.ibl[16]? = some nS) (hinv : Inv fb nS rS1 rS2 rL1 rL2 B s)
+    (hsk : s.idxskip ≤ 2 * nS) (hsz : StateSized n s) (hb : s.blkNo < n) :
+    ∃ s', sieveBlock fb s = some s' := by
+  obtain ⟨⟨lo, lp⟩, hc⟩ := sieveCursors_some hfb hnS hinv.skip_even hsk hinv.cur hinv.prev
+  unfold sieveBlock
+  simp only [hc, Option.bind_eq_bind, Option.bind_some]
+  by_cases h0 : s.tables.size = 0
+  · simp only [h0, if_true]
+    exact ⟨_, rfl⟩
+  · simp only [h0, if_false]
+    have h1 : (s.tables.any fun t => decide (t.entries.size < (s.blkNo + 1) * N_ENTRIES ∨
+        t.blens.size < (s.blkNo + 1) * N_BUCKETS)) = false := by
+      rw [Array.any_eq_false]
+      intro i hi
+      obtain ⟨he, hbl, _⟩ := hsz.tabs i _ (Array.getElem?_eq_getElem hi)
+      have : (s.blkNo + 1) * 4096 ≤ 4096 * n := by omega
+      have : (s.blkNo + 1) * 128 ≤ 128 * n := by omega
+      simp only [decide_eq_true_eq, N_ENTRIES, N_BUCKETS, he, hbl]
+      omega
+    have e : n * BLOCK / LBW = 2 * n := by simp only [BLOCK, LBW]; omega
+    have h2 : (s.ltables.any fun t => decide (t.lengths.size < 2 * s.blkNo + 2)) = false := by
+      rw [Array.any_eq_false]
+      intro i hi
+      obtain ⟨hl, _, _⟩ := hsz.ltabs i _ (Array.getElem?_eq_getElem hi)
+      rw [e] at hl
+      simp only [decide_eq_true_eq, hl]
+      omega
+    have h3 : (s.ltables.any fun t => decide ((t.bucket (2 * s.blkNo)).isNone = true ∨
+        (t.bucket (2 * s.blkNo + 1)).isNone = true)) = false := by
+      rw [Array.any_eq_false]
+      intro i hi
+      have hs := hsz.ltabs i _ (Array.getElem?_eq_getElem hi)
+      obtain ⟨b1, hb1⟩ := LTable.bucket_some hs (b := 2 * s.blkNo) (by omega)
+      obtain ⟨b2, hb2⟩ := LTable.bucket_some hs (b := 2 * s.blkNo + 1) (by omega)
+      simp [hb1, hb2]
+    simp only [h1, h2, h3]
+    exact ⟨_, rfl⟩
+
+theorem isFactor_some {fb : FB} {s : State} {r1 r2 : Array Nat} (hr : RootsOK fb r1 r2) {r pidx : Nat}
+    (hp : pidx < fb.primes.size) (hblk : s.blkNo < 2 ^ 17) : ∃ b, isFactor fb s r1 r2 r pidx = some b := by
+  have hpp : fb.primes[pidx]? = some fb.primes[pidx] := Array.getElem?_eq_getElem hp
+  obtain ⟨o1, o2, h1, h2, _⟩ := hr _ _ hpp
+  have hb32 : s.blkNo % 2 ^ 32 = s.blkNo := Nat.mod_eq_of_lt (by omega)
+  have hbig : ¬ s.blkNo * BLOCK ≥ 2 ^ 32 := by simp only [BLOCK]; omega
+  unfold isFactor
+  simp only [hpp, hb32, hbig, if_false, h1, h2, Option.bind_eq_bind, Option.bind_some, Option.pure_def]
+  split
+  · exact ⟨true, rfl⟩
+  · exact ⟨_, rfl⟩
+
+theorem filt_some {fb : FB} {s : State} {r1 r2 : Array Nat} (hr : RootsOK fb r1 r2) {r : Nat}
+    (hblk : s.blkNo < 2 ^ 17) (cands : List Nat) (hc : ∀ pidx ∈ cands, pidx < fb.primes.size) (acc : List Nat) :
+    ∃ acc', filt fb s r1 r2 r acc cands = some acc' := by
+  unfold filt
+  obtain ⟨a', h, _⟩ := foldlM_some (fun (acc : List Nat) pidx => do
+      let ok ← isFactor fb s r1 r2 r pidx
+      some (if ok then pidx :: acc else acc)) (fun _ => True) cands
+    (fun pidx hm a _ => by
+      obtain ⟨b, hb⟩ := isFactor_some (s := s) (r := r) hr (hc pidx hm) hblk
+      simp only [hb, Option.bind_eq_bind, Option.bind_some]
+      exact ⟨_, rfl, trivial⟩) acc trivial
+  exact ⟨a', h⟩
+
+theorem factorsOf_some {fb : FB} {nS n B : Nat} {rS1 rS2 rL1 rL2 : Array Nat} {s : State}
+    (hfb : fb.WF) (hnS : fb.ibl[16]? = some nS) (hrL : RootsOK fb rL1 rL2)
+    (hprev : CurInv fb rS1 rS2 s.idxskip nS B s.loPrev)
+    (htsize : ∃ maxprime, fb.primes.back? = some maxprime ∧ s.tables.size = min 18 (bitlen maxprime) + 1 - 16 ∧
+      s.ltables.size = bitlen maxprime + 1 - 19)
+    (hsz : StateSized n s) (hb : s.blkNo < n) (hn : n ≤ 2 ^ 17) {r : Nat} (hr : r < BLOCK) :
+    ∃ facs, factorsOf fb s rL1 rL2 r = some facs := by
+  obtain ⟨n15, hn15⟩ := hfb.ibl_some 15 (by omega)
+  have hn15le : n15 ≤ nS := hfb.ibl_mono (by omega) hn15 hnS
+  have hnSle := hfb.ibl_le _ _ hnS
+  have hblk : s.blkNo < 2 ^ 17 := by omega
+  have hlp : ∀ k, k < 2 * nS → ∃ c, s.loPrev[k]? = some c := fun k hk =>
+    ⟨s.loPrev[k]'(by rw [hprev.1]; exact hk), Array.getElem?_eq_getElem (by rw [hprev.1]; exact hk)⟩
+  obtain ⟨small, hsmall, _⟩ := foldlM_some (smallTest fb s r) (fun _ => True) (List.range' 0 n15)
+    (fun i hi a _ => by
+      have hm := List.mem_range'_1.1 hi
+      obtain ⟨p, hp⟩ := hfb.prime_at (i := i) (by omega)
+      obtain ⟨c1, hc1⟩ := hlp (2 * i) (by omega)
+      obtain ⟨c2, hc2⟩ := hlp (2 * i + 1) (by omega)
+      simp only [smallTest, hp, hc1, hc2, Option.bind_eq_bind, Option.bind_some]
+      exact ⟨_, rfl, trivial⟩) [] trivial
+  obtain ⟨mid, hmid, _⟩ := foldlM_some (midTest fb s r) (fun _ => True)
+    (List.range' (2 * n15) (s.loPrev.size - 2 * n15))
+    (fun i hi a _ => by
+      have hm := List.mem_range'_1.1 hi
+      have hi2 : i < 2 * nS := by rw [hprev.1] at hm; omega
+      obtain ⟨p, hp⟩ := hfb.prime_at (i := i / 2) (by omega)
+      obtain ⟨c, hc⟩ := hlp i hi2
+      simp only [midTest, hp, hc, Option.bind_eq_bind, Option.bind_some]
+      exact ⟨_, rfl, trivial⟩) small trivial
+  unfold factorsOf
+  simp only [hn15, hsmall, hmid, Option.bind_eq_bind, Option.bind_some]
+  by_cases h0 : s.tables.size = 0
+  · simp only [h0, if_true]
+    exact ⟨_, rfl⟩
+  · simp only [h0, if_false]
+    obtain ⟨maxprime, hmax, hts, hls⟩ := htsize
+    obtain ⟨a1, h1, _⟩ := foldlM_some (tableStep fb s rL1 rL2 r) (fun _ => True) (List.range' 0 s.tables.size)
+      (fun ti hi a _ => by
+        have hm := List.mem_range'_1.1 hi
+        have hti : ti < s.tables.size := by omega
+        have ht : s.tables[ti]? = some s.tables[ti] := Array.getElem?_eq_getElem hti
+        obtain ⟨idx1, hi1⟩ := hfb.ibl_some (ti + 16) (by omega)
+        obtain ⟨idx2, hi2⟩ := hfb.ibl_some (ti + 16 + 1) (by omega)
+        have hle2 := hfb.ibl_le _ _ hi2
+        obtain ⟨p8s, hlook⟩ := Table.lookup_some (hsz.tabs ti _ ht) hb hr
+        obtain ⟨a', ha', _⟩ := foldlM_some (fun acc p8 => filt fb s rL1 rL2 r acc (candidates idx1 idx2 p8))
+          (fun _ => True) p8s
+          (fun p8 _ acc _ => by
+            obtain ⟨acc', h⟩ := filt_some (s := s) (r := r) hrL hblk (candidates idx1 idx2 p8)
+              (fun pidx hm => by
+                unfold candidates at hm
+                have := (List.mem_filter.1 hm).2
+                simp only [decide_eq_true_eq] at this
+                omega) acc
+            exact ⟨acc', h, trivial⟩) a trivial
+        refine ⟨a', ?_, trivial⟩
+        simp only [tableStep, ht, LARGE_LOG, hi1, hi2, hlook, Option.bind_eq_bind, Option.bind_some]
+        exact ha') mid trivial
+    obtain ⟨a2, h2, _⟩ := foldlM_some (ltableStep fb s rL1 rL2 r) (fun _ => True) s.ltables.toList
+      (fun t ht a _ => by
+        obtain ⟨li, hli, rfl⟩ := List.getElem_of_mem ht
+        have hli' : li < s.ltables.size := by simpa using hli
+        have hts' : s.ltables[li]? = some s.ltables.toList[li] := by
+          rw [Array.getElem?_eq_getElem hli']; simp
+        obtain ⟨p16s, hlook⟩ := LTable.lookup_some (hsz.ltabs li _ hts') hb hr
+        obtain ⟨a', ha', _⟩ := foldlM_some
+          (fun acc p16 => filt fb s rL1 rL2 r acc (lcandidates fb.primes.size p16)) (fun _ => True) p16s
+          (fun p16 _ acc _ => by
+            obtain ⟨acc', h⟩ := filt_some (s := s) (r := r) hrL hblk (lcandidates fb.primes.size p16)
+              (fun pidx hm => by
+                unfold lcandidates at hm
+                obtain ⟨k, hk, rfl⟩ := List.mem_map.1 hm
+                have := List.mem_range'_1.1 hk
+                omega) acc
+            exact ⟨acc', h, trivial⟩) a trivial
+        refine ⟨a', ?_, trivial⟩
+        simp only [ltableStep, hlook, Option.bind_eq_bind, Option.bind_some]
+        exact ha') a1 trivial
+    simp only [h1, h2, Option.bind_some]
+    exact ⟨_, rfl⟩
+
 end Ymq.Sieve
